@@ -284,7 +284,9 @@ class LockStream:
             elif d["outcome"] == "returned" and d["written"] == "False":
                 # a packet queued by a call made when no socket was open cannot be written; disconnect() after the
                 # connection is gone, publish0 with no connection etc. return an error code instead
-                if d["sock"] not in ("0", "None") and not (w[1].startswith("on_disconnect") or w[1] in ("on_socket_close", "on_pre_connect")):
+                # (reconnect() opens a socket of its own: its CONNECT must be written also when it is called from on_disconnect)
+                if (d["sock"] not in ("0", "None") and not (w[1].startswith("on_disconnect") or w[1] in ("on_socket_close", "on_pre_connect"))) \
+                        or (w[2] == "reconnect" and w[1].startswith("on_disconnect")):
                     hits.append((i, "not-written", f"packet of {w[2]}() called inside {w[1]} ({w[3]}) was not written by the enclosing or the next loop iteration"))
         return hits
 
